@@ -54,7 +54,7 @@ impl Check for C12 {
         "exploration"
     }
     fn rule(&self) -> String {
-        "case = a coordinator log for one partition (2-14 transactions, 1-4 events, with their assigned sequence ranges) and a delivery schedule from the tape: every log transaction at least once in a permuted order, duplicates, conflicting transactions claiming an occupied expected sequence, and conflicting transactions keyed strictly inside the range of a multi-event transaction. Each delivery is a ReplicateWrite ask enqueued on the real node's mailbox in schedule order (the node acts as replica; its own remote ref is the coordinator); replies are awaited concurrently. Oracle: at every observation the replica's partition log is a prefix of the coordinator log (same transaction ids, event ids, sequences); after quiescence it contains exactly the longest prefix whose transactions were all delivered; duplicates get the same Ok; conflicting writes never succeed; no ask whose expected sequence lies below the replica's next sequence is still pending 400 ms after quiescence; the partition's replicator keeps answering (a probe write at the next sequence succeeds). Non-trivial: the schedule delivered a successor before its predecessor (buffering happened) and contains a conflict or an inside-range delivery.".into()
+        "case = a coordinator log for one partition (2-14 transactions, 1-4 events, with their assigned sequence ranges) and a delivery schedule from the tape: every log transaction at least once in a permuted order, duplicates, conflicting transactions claiming an occupied expected sequence, and conflicting transactions keyed strictly inside the range of a multi-event transaction. Each delivery is a ReplicateWrite ask enqueued on the real node's mailbox in schedule order (the node acts as replica; its own remote ref is the coordinator); replies are awaited concurrently. Oracle: at every observation the replica's partition log is a prefix of the coordinator log (same transaction ids, event ids, sequences); after quiescence it contains exactly the longest prefix whose transactions were all delivered; duplicates get the same Ok; conflicting writes never succeed; no ask whose expected sequence lies below the replica's next sequence is still pending once the replica has settled (bounded wait of 15 s); the partition's replicator keeps answering (a probe write at the next sequence succeeds). Non-trivial: the schedule delivered a successor before its predecessor (buffering happened) and contains a conflict or an inside-range delivery.".into()
     }
     fn assumptions(&self) -> Vec<String> {
         vec![
@@ -208,17 +208,28 @@ impl Check for C12 {
                     }
                 }
             }
-            // quiescence: wait until nothing changes any more (bounded)
-            let mut last = usize::MAX;
-            for _ in 0..40 {
+            // settle: the state the replica owes is known (the longest fully delivered prefix, and
+            // an answer for every delivery keyed below it), so wait for exactly that; the generous
+            // deadline only matters when something is really missing, never on a slow machine
+            let mut owed_tx = 0;
+            while owed_tx < log.len() && delivered_log.contains(&owed_tx) {
+                owed_tx += 1;
+            }
+            let owed_events: u64 = log[..owed_tx].iter().map(|t| t.events.len() as u64).sum();
+            let settle = tokio::time::Instant::now();
+            loop {
                 tokio::time::sleep(Duration::from_millis(25)).await;
-                let done = outcomes.lock().unwrap().iter().filter(|o| o.is_some()).count();
-                if done == schedule.len() || (done == last) {
+                let held = check_prefix(&db, p, &log, &starts).await.unwrap_or(usize::MAX) as u64;
+                let answered = {
+                    let oc = outcomes.lock().unwrap();
+                    schedule.iter().enumerate().all(|(di, _)| oc[di].is_some() || txs[di].expected_seq.into_next_version().unwrap() >= owed_events)
+                };
+                if (held >= owed_events && answered) || settle.elapsed() > Duration::from_secs(15) {
                     break;
                 }
-                last = done;
             }
-            tokio::time::sleep(Duration::from_millis(400)).await;
+            // and a moment more, so that something applied *beyond* the owed prefix shows up
+            tokio::time::sleep(Duration::from_millis(150)).await;
             let replica = match check_prefix(&db, p, &log, &starts).await {
                 Ok(r) => r,
                 Err(f) => {
